@@ -25,13 +25,14 @@ from common import *
 import runner
 
 ID = "C17"
-LEAN_MODULES = ["Properties.C17"]
+LEAN_MODULES = ["Properties.C17", "Properties.C17Tables"]
 THEOREMS = ["EngineModel.Properties.C17." + t for t in [
     "walk_complete", "walk_open", "walk_mono",
     "verifyDb_iff", "verifyDb_expOf_iff", "expOf_closed", "sameCat_refl", "verifyDb_expOf_self",
     "mutation_deviates", "mutation_changes", "C17_complete_validator_rejects",
     "C17_closed_tables_unique", "C17_closed_tables_complete",
-    "open_block_counterexample", "uncovered_index_counterexample", "sameCat_iff_plain"]]
+    "open_block_counterexample", "uncovered_index_counterexample", "sameCat_iff_plain"]] + [
+    "EngineModel.Properties.C17Tables." + t for t in ["tables_closed", "C17_tables_complete", "C17_tables_unique", "C17_library_complete"]]
 ASSUMPTIONS = [
     "what verify() can look at is the structural catalog: sqlite_master names of tables and views, PRAGMA table_info "
     "of tables, PRAGMA index_list / index_info; SQLite's answers to these are trusted (read through the C API by "
@@ -51,13 +52,24 @@ MANIFEST = dict(
          "column incl. type, nullability, default, pk; drop/add/replace index incl. uniqueness and column list - changes the catalog's "
          "structure), C17_closed_tables_unique / C17_closed_tables_complete: ANY closed expectation table (all blocks terminated, every "
          "listed table and index described) that accepts a well-formed catalog rejects every applicable single-element mutation of it; "
-         "counterexamples for an open block and an uninspected index. That each version's hand-written tables are closed and describe the "
-         "created catalog is decided by exhaustive enumeration on the real code: every single-element mutation of the created catalog "
+         "counterexamples for an open block and an uninspected index. The hand-written tables of every version are extracted from "
+         "schema_*.cpp on every run (tools/tr_validators.py: regex translator with virtual dispatch resolved, fails closed) into "
+         "Gen/ValidatorTables.lean; tables_closed (decide +kernel) + C17_tables_complete: the real tables of all versions reject every "
+         "single-element mutation of any well-formed catalog they accept (C17_library_complete lifts this to the music + perfdata pair of "
+         "1.x). The catalogs the real creators create and the 57 reference catalogs are emitted as Lean data every run "
+         "(Gen/CatalogFacts.lean) and Properties/C17Facts.lean closes by decide +kernel: created_accepted / references_accepted (each "
+         "version's tables accept its created catalog and every reference catalog of the version; all well formed), hence "
+         "C17_created_complete: for every version and database file, the version's own tables reject every applicable single-element "
+         "mutation of the catalog its creator creates, and C17_references_structure (rebuilt by lake only when the facts changed; "
+         "kernel_facts.status = skipped beyond the tier's budget). The Lean model of the real validator must also agree with the real "
+         "verify() on every mutant. "
+         "Decision on the real code: every single-element mutation of the created catalog "
          "(about 1000-1250 per version; all 18 versions in thorough tier, 3 complete + a stratified sample of the rest in quick tier) is "
          "rebuilt from mutated DDL and the real verify() must throw database_inconsistency exactly when the catalog read back deviates "
          "(decided by the Lean model); created, rebuilt-unmutated and all 57 reference libraries must pass.",
     note="Trusted: Lean kernel; SQLite's PRAGMAs; harness/djv_verify.cpp; the DDL regenerator of the plugin (self-checked each run). "
-         "Exhaustive finite enumeration + generic theorems, not a proof about the ~10k lines of expectation tables themselves. Triggers, "
+         "The theorems cover the expectation tables as extracted (translator trusted, checked differentially on every mutant) and the generic "
+         "walk; SQLite's PRAGMA semantics and the std::set wrappers are modelled. Triggers, "
          "view bodies, column order and SQLite's own tables are outside the property.",
     technique="Lean 4 theorems over a model of the generic validator + exhaustive single-element mutation of the created catalog "
               "against the real verify(), verdict decided by the Lean model on the catalog read back",
@@ -65,6 +77,14 @@ MANIFEST = dict(
 TRUSTED_EXTRA = ["harness/djv_verify.cpp (rebuild from DDL, structural catalog reader) and the DDL regenerator of tools/props/C17.py "
                  "(self-checked on every run: the unmutated regeneration of every table reproduces the created catalog)"]
 STATELESS = False
+
+
+def _translate():
+    r = run([sys.executable, os.path.join(VERIF, "tools", "tr_validators.py")])
+    return (r.stdout.strip() or r.stderr.strip())[:300]
+
+
+TRANSLATORS = {"schema_*.cpp validators": _translate}
 
 SCHEMAS = ["schema_1_6_0", "schema_1_7_1", "schema_1_9_1", "schema_1_11_1", "schema_1_13_0", "schema_1_13_1",
            "schema_1_13_2", "schema_1_15_0", "schema_1_17_0", "schema_1_18_0_desktop", "schema_1_18_0_os",
@@ -231,6 +251,21 @@ def positions(existing):
     return out
 
 
+# names an implementation might treat specially: look-alikes of SQLite's internal names (also up to letter case),
+# LIKE / GLOB metacharacters, quotes, blanks, non-ASCII, single characters
+ADVERSARIAL = ["sqlite3stats", "SQLiteXStatus", "sqlite-stat9", "sqliteXsequence", "sqlite", "a_b%c", "x*y?z", "we[i]rd",
+               'quo"te', "apo'strophe", "two words", "T\u00e0bl\u00e9", "%", "_"]
+
+
+def adversarial(existing, rng=None, k=None):
+    """(position-tag, name) for the adversarial pool, minus names SQLite would refuse (equal to an existing one up to case)"""
+    low = {e.lower() for e in existing}
+    pool = [n for n in ADVERSARIAL if n.lower() not in low]
+    if rng is not None and k is not None and len(pool) > k:
+        pool = rng.sample(pool, k)
+    return [("adv", n) for n in pool]
+
+
 class Lib:
     def __init__(self, schema, stmts, cat):
         self.schema, self.stmts = schema, stmts
@@ -279,12 +314,15 @@ def enumerate_mutants(lib):
         for n, t in user.items():
             out.append(mutant("table-drop", label, n, "%s dropTable %s" % (label, hexs(n)),
                               omit=[t.stmt["i"]] + [s["i"] for s in lib.deps(label, n)]))
-        for pos, new in positions(list(tables) + list(views)):
+        out.append(mutant("table-add-analyze", label, "sqlite_stat1 (ANALYZE)", "-", add=["ANALYZE"]))
+        for pos, new in positions(list(tables) + list(views)) + adversarial(list(tables) + list(views)):
             out.append(mutant("table-add-" + pos, label, new,
                               "%s addTable %s 1 %s 0" % (label, hexs(new), col_txt(("id", "INTEGER", 0, None, 0))),
                               add=['CREATE TABLE %s ("id" INTEGER)' % q(new)]))
-        for n, t in user.items():
-            for pos, new in positions(list(tables) + list(views)):
+        for ti, (n, t) in enumerate(user.items()):
+            # every table is renamed to the three positions; the adversarial names are dealt round over the tables
+            adv = adversarial(list(tables) + list(views))
+            for pos, new in positions(list(tables) + list(views)) + [a for j, a in enumerate(adv) if j % len(user) == ti]:
                 omit, repl, pure = [], [(t.stmt["i"], retable(t, name=new))], True
                 for s in lib.deps(label, n):
                     ix = next((i for i in t.idx if i[0] == s["name"]), None) if s["type"] == "index" else None
@@ -299,11 +337,12 @@ def enumerate_mutants(lib):
         for n, s in views.items():
             out.append(mutant("view-drop", label, n, "%s dropView %s" % (label, hexs(n)),
                               omit=[s["i"]] + [d["i"] for d in lib.deps(label, n, ("trigger",))]))
-        for pos, new in positions(list(tables) + list(views)):
+        for pos, new in positions(list(tables) + list(views)) + adversarial(list(tables) + list(views)):
             out.append(mutant("view-add-" + pos, label, new, "%s addView %s" % (label, hexs(new)),
                               add=["CREATE VIEW %s AS SELECT 1 AS x" % q(new)]))
-        for n, s in views.items():
-            for pos, new in positions(list(tables) + list(views)):
+        for vi, (n, s) in enumerate(views.items()):
+            adv = adversarial(list(tables) + list(views))
+            for pos, new in positions(list(tables) + list(views)) + [a for j, a in enumerate(adv) if j % len(views) == vi]:
                 sql, k = re.subn(r'^(\s*CREATE\s+VIEW\s+)("[^"]+"|\[[^\]]+\]|`[^`]+`|[A-Za-z0-9_$]+)', lambda m: m.group(1) + q(new),
                                  s["sql"], count=1, flags=re.I)
                 if k != 1:
@@ -385,7 +424,8 @@ def enumerate_mutants(lib):
                     cols = [(x[0], x[1], x[2], x[3], len(pk) + 1) if x is c else x for x in t.cols]
                     col_mut("col-pk-add", "%s pk 0 -> %d" % (c[0], len(pk) + 1), cols, autoinc=False,
                             lean="%s updCol %s %s %s" % (label, hexs(n), hexs(c[0]), col_txt((c[0], c[1], c[2], c[3], len(pk) + 1))))
-            for pos, new in positions(cn):
+            tix = list(user).index(n)
+            for pos, new in positions(cn) + [a for j, a in enumerate(adversarial(cn)) if j % len(user) == tix]:
                 newc = (new, "INTEGER", 0, None, 0)
                 col_mut("col-add-" + pos, "+" + new, t.cols + [newc],
                         lean="%s addCol %s %s" % (label, hexs(n), col_txt(newc)))
@@ -441,12 +481,36 @@ def enumerate_mutants(lib):
                                 out.append(mutant(kind, label, "%s.%s" % (n, ix[0]),
                                                   "%s updIdx %s %s %s" % (label, hexs(n), hexs(ix[0]), idx_txt(ix2)),
                                                   repl=[(t.stmt["i"], retable(t, auto=[ix2 if a is ix else a for a in auto]))]))
-            for pos, new in positions(inames):
+            for pos, new in positions(inames) + [a for j, a in enumerate(adversarial(inames + list(tables) + list(views))) if j % len(user) == tix]:
                 c0 = t.cols[0][0]
                 ix = (new, 0, "c", 0, [(0, c0)])
                 out.append(mutant("index-add-" + pos, label, "%s.+%s" % (n, new),
                                   "%s addIdx %s %s" % (label, hexs(n), idx_txt(ix)), add=[index_sql(n, ix)]))
     return out
+
+
+def exp_text(a):
+    """the extracted expectation tables of one database file in the driver's text form (pDbExp)"""
+    def lst(xs, f):
+        return "%d%s" % (len(xs), "".join(" " + f(x) for x in xs))
+    def te(t):
+        return "%s %s %d %s %d %s" % (
+            hexs(t["name"]),
+            lst(t["cols"], lambda c: "%s %s %d %s %d" % (hexs(c[0]), hexs(c[1]), c[2], hexs(c[3]), c[4])), int(t["colsNoMore"] and t["hasCols"]),
+            lst(t["idxs"], lambda i: "%s %d %s %d" % (hexs(i[0]), i[1], hexs(i[2]), i[3])), int(t["idxsNoMore"] and t["hasIdxs"]),
+            lst(t["idxCols"], lambda x: "%s %s %d" % (hexs(x[0]), lst(x[1], lambda c: "%d %s" % (c[0], hexs(c[1]))), int(x[2]))))
+    return "%s %d %s %d %s" % (lst(a["tables"], hexs), int(a["tablesNoMore"]), lst(a["views"], hexs), int(a["viewsNoMore"]),
+                               lst(a["perTable"], te))
+
+
+def extracted_tables():
+    """{schema: {label: assembled tables}} from tools/tr_validators.py, or (None, reason)"""
+    try:
+        import tr_validators
+        versions = tr_validators.translate()
+        return {v: tr_validators.assemble(b) for v, b in versions.items()}, "ok"
+    except Exception as e:      # Unsupported or anything else: fail closed
+        return None, "unsupported: %s" % (e,)
 
 
 def mut_line(m):
@@ -467,10 +531,10 @@ def mutated_ddl(lib, m):
     return out + [a + ";" for a in m["add"]]
 
 
-RES = re.compile(r"^ok load=(\S+) pub=(\S+) int=(\S+) trigskip=(\d+) (minus .*)$")
+RES = re.compile(r"^ok load=(\S+) pub=(\S+) int=(\S+) trigskip=(\d+) wrap=(\S+) (minus .*)$")
 
 
-def run_schema(schema, select, ctx):
+def run_schema(schema, select, ctx, extracted=None):
     """Create the schema with the real code, enumerate, select, run.  Returns dict."""
     base = ["create %s disk" % schema, "sv.base"]
     outs, _ = runner.run_harness_script(base, watchdog=60)
@@ -491,17 +555,28 @@ def run_schema(schema, select, ctx):
     for (o, rep), sh in zip(hres, shards):
         houts += o[2:2 + len(sh)]
     mlines = ["#mode schema", "c17.base b " + cat_text]
+    exp = (extracted or {}).get(schema)
+    if exp:
+        for label in sorted(exp):
+            mlines.append("c17.exp b %s %s" % (label, exp_text(exp[label])))
+    npre = len(mlines)
     parsed = []
     for l, o, m in zip(lines, houts, [None] + muts):
         mm = RES.match(o)
         parsed.append(mm)
         if mm:
-            mlines.append("c17.mut b %s %s" % ((m["lean"] if m else "-"), mm.group(5)))
-    mshards = runner.shard(mlines[2:], max(1, min(NCPU, 1 + len(mlines) // 100)))
-    mres = runner.run_model([mlines[:2] + sh for sh in mshards])
+            mlines.append("c17.mut b %s %s" % ((m["lean"] if m else "-"), mm.group(6)))
+    mshards = runner.shard(mlines[npre:], max(1, min(NCPU, 1 + len(mlines) // 100)))
+    mres = runner.run_model([mlines[:npre] + sh for sh in mshards])
     mouts = []
     for o, sh in zip(mres, mshards):
-        mouts += o[2:2 + len(sh)]
+        mouts += o[npre:npre + len(sh)]
+    if exp and mres:
+        for l, ans in zip(mlines[2:npre], mres[0][2:npre]):
+            res["hist"]["extracted-tables:" + ans[3:]] = res["hist"].get("extracted-tables:" + ans[3:], 0) + 1
+            if ans != "ok closed=true accepts=true expOf=true":
+                res["divergences"].append({"input": "%s %s" % (schema, l[:40]), "impl": "(tables extracted from schema_*.cpp)",
+                                           "model": "the extracted tables should be closed, accept the created catalog and equal expOf: " + ans[:120]})
     mi = 0
     H = res["hist"]
 
@@ -516,7 +591,14 @@ def run_schema(schema, select, ctx):
                                        "model": "the mutated DDL should build (generator / harness problem)"})
             bump("generator-error:" + kind)
             continue
-        load, pub, intl, trigskip, delta = mm.groups()
+        load, pub, intl, trigskip, wrap, delta = mm.groups()
+        bump("wrappers:" + wrap.split(":")[0] + (":" + wrap.split(":")[1] if ":" in wrap else ""))
+        if wrap != "same":
+            # the model assumes the validator's query wrappers list every table / view / column / index that is there
+            res["divergences"].append({"input": "%s %s: %s" % (schema, kind, what),
+                                       "impl": "the validator's own listing differs from the independent reader's: " + wrap + " = " +
+                                               (unhex(wrap.split(":")[-1]) if wrap.startswith("DIFF") else ""),
+                                       "model": "master_list / table_info / index_list / index_info return everything sqlite_master and the PRAGMAs hold"})
         lean = mouts[mi] if mi < len(mouts) else "missing"
         mi += 1
         f = dict(x.split("=", 1) for x in lean.split(" ")[1:]) if lean.startswith("ok ") else {}
@@ -542,6 +624,14 @@ def run_schema(schema, select, ctx):
         else:
             res["nontrivial"].add(hashlib.sha1(delta.encode()).hexdigest())
         want = "inconsistency" if deviates else "ok"
+        verdict = pub if pub != "na" else intl
+        if f.get("real", "na") != "na":
+            # the Lean model of the REAL validator (generic walk over the tables extracted from schema_*.cpp) vs the real code
+            agree = (f["real"] == "true") == (verdict == "ok")
+            bump("model-of-real-validator:" + ("agrees" if agree else "DIFFERS"))
+            if not agree:
+                res["divergences"].append({"input": "%s %s: %s" % (schema, kind, what), "impl": "verify(): " + verdict,
+                                           "model": "verifyDb <extracted tables> says accepts=%s" % f["real"]})
         bad = []
         # the verdict is database::verify()'s whenever load_database() got that far; the validator of the
         # created version run directly on the library's kind of connection decides the rest (a mutant whose
@@ -570,33 +660,152 @@ def run_schema(schema, select, ctx):
     return res
 
 
+ALL_CLASSES = SCHEMAS + ["schema_3_0_0"]     # 3.0.0 is shipped (and has extracted tables) but is not among the 18 supported
+
+
 def accepting_side(schemas):
-    """created (temporary, on-disk, reloaded) and every reference library must pass verify()"""
+    """created (temporary, on-disk, reloaded) and every reference library must pass verify(); also returns the catalogs
+    read back (created per class, reference per dump with the schema the library loaded it as) for the kernel facts"""
     scripts, keys = [], []
-    for s in schemas:
-        scripts.append(["create %s mem" % s, "db.q verify", "create %s disk" % s, "db.q verify", "load", "db.q verify"])
+    for s in ALL_CLASSES:
+        scripts.append(["create %s mem" % s, "db.q verify", "schema.dump", "create %s disk" % s, "db.q verify", "load", "db.q verify"])
         keys.append(("c", s))
     refs = []
     for d in sorted(glob.glob(os.path.join(REFBASE, "*", "*"))):
         if os.path.exists(os.path.join(d, "m.db.sql")) or os.path.exists(os.path.join(d, "Database2", "m.db.sql")):
             refs.append(os.path.relpath(d, REFBASE))
     for rel in refs:
-        scripts.append(["schema.refload " + hexs(os.path.join(REFBASE, rel))])
+        scripts.append(["schema.refload " + hexs(os.path.join(REFBASE, rel)), "schema.ref " + hexs(os.path.join(REFBASE, rel))])
         keys.append(("r", rel))
     viol, n = [], 0
-    for k, (o, _) in zip(keys, runner.run_harness(scripts, watchdog=60)):
-        n += 1
+    cats = {"created": {}, "reference": []}
+
+    def cat_of(line):
+        toks = line.split(" ")
+        return " ".join(toks[toks.index("M"):]) if line.startswith("ok ") and "M" in toks else None
+    for k, sc, (o, _) in zip(keys, scripts, runner.run_harness(scripts, watchdog=60)):
         if k[0] == "c":
-            good = o[1] == "ok" and o[3] == "ok" and o[5] == "ok"
+            good = o[1] == "ok" and o[4] == "ok" and o[6] == "ok"
             name = k[1]
+            if cat_of(o[2]):
+                cats["created"][k[1]] = cat_of(o[2])
+            if k[1] not in schemas:
+                continue          # 3.0.0: catalog wanted for the facts, verdict not claimed
         else:
             good = o[0].startswith("ok ") and o[0].endswith("verify=ok")
             name = "ref " + k[1]
+            if good and cat_of(o[1]):
+                cats["reference"].append((k[1], o[0].split(" ")[1], cat_of(o[1])))
+        n += 1
         if not good:
             viol.append({"tag": "accept", "signature": {"kind": "accepting-side", "object": name},
                          "header": {"kind": "accept", "what": "verify() rejects a created / reference library: " + name},
-                         "body": ["object: " + name] + scripts[keys.index(k)] + [x[:300] for x in o]})
-    return viol, n, len(refs)
+                         "body": ["object: " + name] + sc + [x[:300] for x in o]})
+    return viol, n, len(refs), cats
+
+
+# ------------------------------------------------------------------ the accepting side and the per-version statement in the kernel
+CATFACTS = os.path.join(LEAN, "EngineModel", "Gen", "CatalogFacts.lean")
+FACTS_BUDGET_S = {"quick": int(os.environ.get("VERIF_C17_KERNEL_BUDGET_QUICK", "60")),
+                  "thorough": int(os.environ.get("VERIF_C17_KERNEL_BUDGET", "900"))}
+FACT_THEOREMS = ["EngineModel.Properties.C17Facts." + t for t in
+                 ("created_accepted", "references_accepted", "created_cover", "C17_created_complete", "C17_references_structure")]
+
+
+def _lit(s):
+    return '(bytes% "' + (s.encode("utf-8", "surrogateescape").hex()) + '")'
+
+
+def _olit(s):
+    return "none" if s is None else "(some %s)" % _lit(s)
+
+
+def _dump_lean(text):
+    M, T, X = parse_dump(Toks(text.split(" ")))
+    tabs = {(db, n) for db, ty, n, tb in M if ty == "table"}
+    m = ", ".join("⟨%s, %s, %s, %s, none⟩" % (_lit(db), _lit(ty), _lit(n), _lit(tb)) for db, ty, n, tb in M if ty in ("table", "view"))
+    t = ", ".join("⟨%s, %s, [%s]⟩" % (_lit(db), _lit(tb), ", ".join(
+        "⟨%s, %s, %d, %s, %d⟩" % (_lit(c[0]), _lit(c[1]), c[2], _olit(c[3]), c[4]) for c in cols)) for (db, tb), cols in T.items() if (db, tb) in tabs)
+    x = ", ".join("⟨%s, %s, [%s]⟩" % (_lit(db), _lit(tb), ", ".join(
+        "⟨%s, %d, %s, %d, [%s]⟩" % (_lit(i[0]), i[1], _lit(i[2]), i[3], ", ".join("⟨%d, %s⟩" % (sq, _olit(c)) for sq, c in i[4])) for i in idx))
+        for (db, tb), idx in X.items() if (db, tb) in tabs)
+    return "⟨[%s],\n   [%s],\n   [%s]⟩" % (m, t, x)
+
+
+def emit_catalog_facts(extracted, cats):
+    entries = [(v, l) for v in sorted(extracted) for l in sorted(extracted[v])]      # the order of ValidatorTables.all
+    pos = {e: k for k, e in enumerate(entries)}
+    dumps, index, names = [], {}, []
+
+    def did(text, name):
+        if text not in index:
+            index[text] = len(dumps)
+            dumps.append(text)
+            names.append([])
+        names[index[text]].append(name)
+        return index[text]
+    created, reference = [], []
+    for v, text in sorted(cats["created"].items()):
+        for (vv, l), k in pos.items():
+            if vv == v:
+                created.append((k, did(text, "created " + v)))
+    for rel, v, text in cats["reference"]:
+        for (vv, l), k in pos.items():
+            if vv == v:
+                reference.append((k, did(text, "ref " + rel)))
+    L = ["/- GENERATED by tools/props/C17.py from the catalogs read back (sqlite_master names, PRAGMA table_info / index_list /",
+         "index_info; no DDL text) from the libraries the real code created and from the hydrated reference dumps.  Do not edit. -/",
+         "import EngineModel.Spec.SchemaDump", "import EngineModel.Spec.BytesLit", "namespace EngineModel.Gen.CatalogFacts",
+         "open EngineModel.Spec.SchemaDump", "set_option maxRecDepth 1000000", "set_option maxHeartbeats 4000000", ""]
+    for j, text in enumerate(dumps):
+        L.append("/-- %s -/" % "; ".join(names[j])[:400])
+        L.append("noncomputable def c%d : Dump :=\n  %s" % (j, _dump_lean(text)))
+    L.append("noncomputable def dumps : List Dump := [%s]" % ", ".join("c%d" % j for j in range(len(dumps))))
+    L.append("/-- (index into ValidatorTables.all, index into dumps): the catalog the creator of that version creates -/")
+    L.append("def createdFacts : List (Nat × Nat) := [%s]" % ", ".join("(%d, %d)" % f for f in sorted(set(created))))
+    L.append("/-- … and the reference catalogs the library loads as that version -/")
+    L.append("def referenceFacts : List (Nat × Nat) := [%s]" % ", ".join("(%d, %d)" % f for f in sorted(set(reference))))
+    L.append("end EngineModel.Gen.CatalogFacts")
+    new = "\n".join(L) + "\n"
+    try:
+        old = open(CATFACTS).read()
+    except OSError:
+        old = None
+    if old != new:
+        with open(CATFACTS, "w") as f:
+            f.write(new)
+    return {"catalogs": len(dumps), "created_facts": len(set(created)), "reference_facts": len(set(reference)), "entries": len(entries)}
+
+
+def kernel_facts(extracted, cats, tier):
+    import subprocess
+    t0 = time.time()
+    if not extracted:
+        return {"status": "skipped", "why": "the validator tables could not be translated"}
+    try:
+        stats = emit_catalog_facts(extracted, cats)
+    except Exception as e:
+        return {"status": "failed", "why": "emitting the facts: %r" % (e,)}
+    try:
+        p = subprocess.run(["lake", "build", "Properties.C17Facts"], cwd=LEAN, stdout=subprocess.PIPE, stderr=subprocess.STDOUT,
+                           text=True, timeout=FACTS_BUDGET_S[tier])
+    except subprocess.TimeoutExpired:
+        subprocess.run(["pkill", "-f", "Properties/C17Facts.lean"])
+        subprocess.run(["pkill", "-f", "Gen/CatalogFacts.lean"])
+        return dict(stats, status="skipped", wall_s=round(time.time() - t0, 1),
+                    why="the emitted facts differ from the last ones the kernel closed, and re-closing them exceeded the %s-tier budget "
+                        "of %d s (reported, not silent; the compiled model evaluated the same acceptances this run)" % (tier, FACTS_BUDGET_S[tier]))
+    if p.returncode != 0:
+        return dict(stats, status="failed", why=p.stdout[-1500:], wall_s=round(time.time() - t0, 1))
+    import audit as auditmod
+    ax = auditmod.axioms_and_statements(FACT_THEOREMS, imports=("Properties.C17Facts",))
+    allowed = {"propext", "Classical.choice", "Quot.sound"}
+    bad = [n for n in FACT_THEOREMS if ax[n].get("axioms") is None or not set(ax[n]["axioms"]) <= allowed]
+    lock = auditmod.load_lock("C17Facts")
+    stale = [n for n in FACT_THEOREMS if lock.get(n) != ax[n].get("stmt_sha")]
+    if bad or stale:
+        return dict(stats, status="failed", why="axioms / statement lock: %r %r" % (bad, stale), wall_s=round(time.time() - t0, 1))
+    return dict(stats, status="ok", wall_s=round(time.time() - t0, 1), theorems={n: ax[n].get("axioms") for n in FACT_THEOREMS})
 
 
 def full_versions(seed):
@@ -622,7 +831,7 @@ def tie(ctx):
             out, groups = [], {}
             for m in allm:
                 k = m["kind"]
-                if k.startswith(always) or k.endswith("-add-last") or k.endswith("-add-only"):
+                if k.startswith(always) or k.endswith(("-add-last", "-add-only", "-adv", "-analyze")):
                     out.append(m)
                 else:
                     fam = re.sub(r"-(first|between|last|add|drop|change|remove|case)$", "", k)
@@ -636,8 +845,9 @@ def tie(ctx):
     n, nontrivial, enumerated = 0, 0, {}
     from concurrent.futures import ThreadPoolExecutor
     sels = {s: selector(s) for s in SCHEMAS}       # built in a fixed order: the sample depends on the seed only
+    extracted, tr_status = extracted_tables()
     with ThreadPoolExecutor(3) as ex:
-        results = list(ex.map(lambda s: run_schema(s, sels[s], ctx), SCHEMAS))
+        results = list(ex.map(lambda s: run_schema(s, sels[s], ctx, extracted), SCHEMAS))
     for s, r in zip(SCHEMAS, results):
         violations += r["violations"]
         divergences += r["divergences"]
@@ -647,9 +857,13 @@ def tie(ctx):
         samples += r["samples"][:1]
         for k, v in r["hist"].items():
             hist[k] = hist.get(k, 0) + v
-    av, an, nrefs = accepting_side(SCHEMAS)
+    av, an, nrefs, cats = accepting_side(SCHEMAS)
     violations += av
     hist["accepting-side-libraries"] = an
+    kf = kernel_facts(extracted, cats, ctx.tier)
+    if kf["status"] == "failed":
+        divergences.append({"input": "Properties/C17Facts.lean over Gen/CatalogFacts.lean + Gen/ValidatorTables.lean", "impl": "(n/a)",
+                            "model": "the kernel does not close the acceptance facts: " + str(kf.get("why"))[-600:]})
     try:
         known = [k.get("signature") for k in json.load(open(os.path.join(VERIF, "known_findings.json")))["known"]
                  if k.get("property") == ID]
@@ -670,7 +884,8 @@ def tie(ctx):
         "violations": violations[:25],
         "exhaustive": ctx.tier == "thorough",
         "extra": {"mutants_run_of_enumerated": enumerated, "complete_enumeration_on": sorted(full),
-                  "reference_libraries": nrefs, "wall_tie_s": round(time.time() - t0, 1)},
+                  "reference_libraries": nrefs, "wall_tie_s": round(time.time() - t0, 1),
+                  "validator_tables_translator": tr_status, "kernel_facts": kf},
     }
 
 
@@ -700,3 +915,8 @@ def replay(ctx, hdr, body):
         ok = False
         txt.append("could not re-run the recorded mutant")
     return ok, "\n".join(txt)
+
+
+if __name__ == "__main__" and sys.argv[1:] == ["lock-facts"]:
+    import audit as auditmod
+    print(auditmod.write_lock("C17Facts", FACT_THEOREMS, imports=("Properties.C17Facts",)))
